@@ -32,13 +32,20 @@ const (
 	formatCodeU1      = 0o51
 	formatCodeU2      = 0o52
 	formatCodeU4      = 0o54
+
+	// maxNestingDepth is the deepest list nesting the parser follows. The item
+	// parser recurses once per nested list; without a limit a few megabytes of
+	// list headers exhaust the goroutine stack, which aborts the process and
+	// cannot be recovered from.
+	maxNestingDepth = 10000
 )
 
 // Parse parses the input bytes that represent a HSMS message.
 //
 // input should contain only one HSMS message.
 //
-// If parsing fails, ok == false will be returned.
+// If parsing fails, ok == false will be returned. A message whose lists are
+// nested deeper than maxNestingDepth levels is refused as well.
 func Parse(input []byte) (msg ast.HSMSMessage, ok bool) {
 	// Handle panics on abstract syntax tree creation
 	defer func() {
@@ -64,6 +71,7 @@ type parser struct {
 	pos       int             // current position in input
 	msgLength int             // message length (excluding length bytes)
 	msg       ast.HSMSMessage // parsed HSMS message
+	depth     int             // number of lists enclosing the item being parsed
 }
 
 // parseMessageLength parses the message length which is the first 4 bytes of
@@ -150,6 +158,10 @@ func (p *parser) parseMessageText() (dataItem ast.ItemNode, ok bool) {
 
 	switch formatCode {
 	case formatCodeList:
+		if p.depth >= maxNestingDepth {
+			return ast.NewEmptyItemNode(), false
+		}
+		p.depth++
 		// grows with the items actually present, not with the declared count
 		values := make([]interface{}, 0)
 		for i := 0; i < length; i++ {
@@ -159,6 +171,7 @@ func (p *parser) parseMessageText() (dataItem ast.ItemNode, ok bool) {
 			}
 			values = append(values, value)
 		}
+		p.depth--
 		return ast.NewListNode(values...), true
 
 	case formatCodeASCII:
